@@ -52,8 +52,8 @@ def plan(tier: str, seed: int) -> list[dict]:
         shards.append({"kind": "fixed", "mode": "jit", "backend": "numpy", "cases": 200 if quick else 800, "timeout": 1500 if quick else 4000})
     for _ in range(6 if quick else 24):
         shards.append({"kind": "fixed", "mode": "jit", "backend": "numba", "cases": 10 if quick else 30, "timeout": 1500 if quick else 4000})
-    for _ in range(2 if quick else 8):
-        shards.append({"kind": "adaptive", "mode": "jit", "cases": 24 if quick else 80, "timeout": 1500 if quick else 4000})
+    for i in range(2 if quick else 8):
+        shards.append({"kind": "adaptive", "mode": "jit", "cases": 24 if quick else 80, "timeout": 1500 if quick else 4000, "known_finding_probe": i == 0})
     return shards
 
 
@@ -311,6 +311,9 @@ def run_adaptive_shard(spec, res: ShardResult, rng):
         dt0 = float(rng.choice([1e-3, 1e-2, 0.1, 1.0]))
         ncell = int(rng.integers(1, 4))
         u0 = np.round(rng.uniform(0.5, 2, size=ncell), 3)
+        if case_no == 1 and spec.get("known_finding_probe"):
+            # fixed witness of known finding F15 (so that it is reported on every run)
+            a, T, t0, tol, dt0, u0, backend = -1.5899919438174837, 0.5, -1.0, 1e-3, 1.0, np.array([1.489, 1.031, 1.637]), "numpy"
         c = {"solver": solver, "backend": backend, "a": a, "coeffs": (0, 0, 0, 1), "dt": dt0, "steps": 0, "t0": t0, "u0": u0}
         case = {"solver": solver, "backend": backend, "a": a, "t_range": [t0, t0 + T], "dt_initial": dt0, "tolerance": tol, "u0": u0.tolist(), "adaptive": True}
         try:
@@ -328,7 +331,12 @@ def run_adaptive_shard(spec, res: ShardResult, rng):
         exact = u0 * math.exp(a * T)
         err = float(np.abs(out.data - exact).max())
         if err > steps * tol:
-            res.violation(f"global error {err:.3g} exceeds accepted steps x tolerance = {steps}*{tol:g}", case, steps=steps)
+            stats0 = info["solver"].get("dt_statistics") or {}
+            zmax = abs(a) * float(stats0.get("max", 0.0))
+            mech = None
+            if solver == "runge-kutta" and steps <= 2 and zmax >= 0.4 and err <= 2 * steps * tol:
+                mech = "rkf45-single-large-step-underestimates-error"
+            res.violation(f"global error {err:.3g} exceeds accepted steps x tolerance = {steps}*{tol:g}", case, mechanism=mech, steps=steps, max_abs_a_dt=zmax)
         res.stat_max("max_global_error_over_steps_tol", err / (steps * tol))
         stats = info["solver"].get("dt_statistics")
         if stats:
